@@ -230,6 +230,54 @@ def c18_quote_schema():
     return {"package": "c18q", "id": 903, "version": 1, "byteOrder": "littleEndian", "types": types, "messages": [m]}
 
 
+FP_LEXEMES = ["-INF", "INF", "+INF", "NaN", "-0.0", "0", "1e-3", "-1.5E+10", "3", "-2.5", "1024", "-1", "+1.25", ".5", "5.", "0.1"]
+FP_ONLY = {"float": ["3.4028234663852886e+38", "-3.4028234663852886e+38", "1.17549435e-38"],
+           "double": ["1.7976931348623157e+308", "-1.7976931348623157e+308", "2.2250738585072014e-308",
+                      "3.4028234663852886e+38", "1.17549435e-38"]}
+
+
+def c18_fp_schema():
+    """float and double types with explicit special and boundary lexemes: every
+    lexeme occurs as minValue, as maxValue, as nullValue and as a constant, for
+    both primitive types; public, inline in a composite, through refs and as
+    message fields.  Only XML Schema float lexemes (no hex, no signed NaN)."""
+    types = [header(), dim(), vardata()]
+    msgs = []
+    fid = [0]
+
+    def nid():
+        fid[0] += 1
+        return fid[0]
+
+    for p in ("float", "double"):
+        L = FP_LEXEMES + FP_ONLY[p]
+        n = len(L)
+        tnames, knames = [], []
+        for i, lx in enumerate(L):
+            tn = "%s_t%d" % (p[0], i)
+            types.append(T(tn, p, presence="optional", min=lx, max=L[(i + 1) % n], null=L[(i + 2) % n]))
+            tnames.append(tn)
+            kn = "%s_k%d" % (p[0], i)
+            types.append(T(kn, p, presence="constant", const=lx))
+            knames.append(kn)
+        types.append(T("%s_req" % p[0], p, min=L[0], max=L[1]))          # required: min/max only
+        types.append({"kind": "composite", "name": "%s_comp" % p[0], "elements": [
+            T("in_a", p, presence="optional", min="-INF", max="INF", null="NaN"),
+            T("in_b", p, min="-0.0", max="+INF"),
+            {"kind": "ref", "name": "r0", "type": tnames[0]},
+            {"kind": "ref", "name": "r1", "type": "%s_req" % p[0]},
+            T("in_k", p, presence="constant", const="-INF"),
+            {"kind": "ref", "name": "rk", "type": knames[0]}]})
+        # message fields: at most 12 per level
+        chunks = [(tnames + ["%s_req" % p[0], "%s_comp" % p[0]])[i:i + 11] for i in range(0, n + 2, 11)]
+        for ci, ch in enumerate(chunks):
+            msgs.append(G("%s_vals%d" % (p[0], ci), 100 + len(msgs), fields=[F("v_" + t, nid(), t) for t in ch]))
+        for ci in range(0, n, 11):
+            msgs.append(G("%s_consts%d" % (p[0], ci // 11), 100 + len(msgs), fields=[F("c_" + k, nid(), k) for k in knames[ci:ci + 11]],
+                          groups=[G("g", 1, fields=[F("gk", 1, knames[0]), F("gv", 2, tnames[0])])] if ci == 0 else []))
+    return {"package": "c18f", "id": 904, "version": 1, "byteOrder": "littleEndian", "types": types, "messages": msgs}
+
+
 # ------------------------------------------------------------------- C++ ---
 
 TRAITS_CLASS = {"type": "type_traits", "enum": "enum_traits", "set": "set_traits", "composite": "composite_traits"}
@@ -311,9 +359,18 @@ class Gen:
             a.append("0" if fill == "0" else "C18_DATA_TOTAL")
         return ", ".join(a)
 
-    def level(self, lv, path):
+    def fp_constant(self, f):
+        t = self.types.get(f["type"])
+        ln = None if t is None else t.get("length")
+        return bool(t) and t["kind"] == "type" and t.get("presence") == "constant" and t["prim"] in ("float", "double") and (1 if ln is None else ln) == 1
+
+    def level(self, lv, path, view=None):
+        """view: C++ name of the representation type of this level (message
+        view or group entry), used for the static constant accessors"""
         for f in lv.get("fields", []):
             self.ent(path + [f["name"]], "field")
+            if view and self.fp_constant(f):
+                self.calls.append('c18::emit_extra("%s", "constant_value", %s::%s());' % ("/".join(path + [f["name"]]), view, f["name"]))
         for g in lv.get("groups", []):
             gp = path + [g["name"]]
             n, dat = self.ngroups(g), self.has_data(g)
@@ -322,7 +379,7 @@ class Gen:
             # the group's own count comes first, then the nested ones
             self.calls.append('c18::emit_extra("%s", "size_bytes_0", %s::size_bytes(%s));' % ("/".join(gp), t, self.size_args(n + 1, dat, "0")))
             self.calls.append('c18::emit_extra("%s", "size_bytes_1", %s::size_bytes(%s));' % ("/".join(gp), t, self.size_args(n + 1, dat, "1")))
-            self.level(g, gp)
+            self.level(g, gp, "%s::entry_type<char>" % t)
         for d in lv.get("data", []):
             self.ent(path + [d["name"]], "data")
 
@@ -342,7 +399,7 @@ class Gen:
             self.calls.append('c18::emit_extra("%s", "size_bytes_1", %s::size_bytes(%s));' % ("/".join(mp), t, self.size_args(n, dat, "1")))
             self.calls.append('c18::emit_extra("%s", "value_type_public", std::is_same< %s::value_type<char>, ::%s::messages::%s<char> >::value);' % (
                 "/".join(mp), t, self.ns, m["name"]))
-            self.level(m, mp)
+            self.level(m, mp, "::%s::messages::%s<char>" % (self.ns, m["name"]))
         L = ["// generated by tools/traitsgen.py - names and kinds only, never a trait value",
              "#include <%s/%s.hpp>" % (self.ns, self.ns),
              '#include "c18_traits.hpp"', ""]
